@@ -3,7 +3,7 @@
    Model: Gen/TypesMap.v with the iteration order of `range funcToTyps` as the explicit parameter
    [order]; Gen/Determinism.v for sortPlugins and printer.WriteTo. *)
 From Coq Require Import List String Bool Permutation Sorted.
-From Verif Require Import Base Gen.TypesMap Gen.Determinism.
+From Verif Require Import Base Gen.TypesMap Gen.Determinism Gen.SortInst.
 Import ListNotations.
 
 Section C08.
@@ -53,6 +53,22 @@ Theorem C08_write_to_sorted : forall (sorter1 sorter2 : list string -> list stri
   write_to sorter1 im1 = write_to sorter2 im2.
 Proof. exact write_to_sorted. Qed.
 
+(* the contract assumed of sort.Slice / sort.Strings is met by a concrete sorting routine for
+   both orders, so the two theorems above are not vacuous (and the evaluator's sorter is one) *)
+Theorem C08_sorter_instances : sorts less (isort less) /\ sorts sless (isort sless).
+Proof. exact (conj (isort_sorts less less_strict_total) (isort_sorts sless sless_strict_total)). Qed.
+
+(* the repaired nameOf (registration order): after any operations, a registered type list
+   resolves to its own name, for ANY assignability relation (reflexive; not necessarily
+   symmetric) — so Generating/ToGenerate/Done speak about the entry itself *)
+Theorem C08_registered_resolves_to_self :
+  forall (tys : Type) (teq : tys -> tys -> bool) (hint : tys -> string),
+  (forall q, teq q q = true) ->
+  forall ops (s : tm tys), SelfFirst tys teq (tbl s) ->
+  forall n q, In (n, q) (tbl (fst (run tys teq hint in_order s ops))) ->
+  name_of tys teq in_order (fst (run tys teq hint in_order s ops)) q = Some n.
+Proof. exact registered_resolves_to_self. Qed.
+
 (* the pinned nameOf without the guard: S1/S2 registered, []int queried — two orders, two
    answers (repaired by "fix: nameOf looks names up in registration order") *)
 Theorem C08_name_of_order_refuted :
@@ -67,4 +83,6 @@ Print Assumptions C08_sep_unique_match.
 Print Assumptions C08_generate_deterministic.
 Print Assumptions C08_sort_plugins_perm.
 Print Assumptions C08_write_to_sorted.
+Print Assumptions C08_sorter_instances.
+Print Assumptions C08_registered_resolves_to_self.
 Print Assumptions C08_name_of_order_refuted.
